@@ -239,9 +239,13 @@ class C19(Check):
 
                         want = ecef2lla(eci2ecef(np.asarray(cur, dtype=float), S + __import__("datetime").timedelta(seconds=k * step)))
                         got = np.asarray(sn["sensor_lla"][a], dtype=float)
-                        dlon = abs((got[1] - want[1] + np.pi) % (2 * np.pi) - np.pi)
-                        # (the agent's epoch comes back from a Julian date: up to ~4e-5 s, i.e. 3e-9 rad of Earth rotation)
-                        if abs(got[0] - want[0]) > 1e-7 or dlon > 1e-7 or abs(got[2] - want[2]) > 1e-4:
+                        # compared as points (longitude is ill-conditioned next to the poles).  The agent's epoch comes back from a Julian date (up to
+                        # ~4e-5 s), and when that puts it a few microseconds before midnight the Earth-orientation parameters of the previous day apply:
+                        # UT1-UTC moves 1-3 ms per day, up to 1.4 m at the equator.  A location that lags one step is off by step x 465 m x cos(latitude)
+                        from ..oracles import geom as _geom
+
+                        dist = float(np.linalg.norm(_geom.lla_to_ecef(got[0], got[1], got[2]) - _geom.lla_to_ecef(want[0], want[1], want[2])))
+                        if dist > 3e-3:
                             viol.append({"clause": "imported-sensor-location-stale", "key": "lla",
                                          "detail": f"sensor {a} at step {k}: reports latitude/longitude/altitude {got.tolist()} but its imported state at this epoch is at {want.tolist()}"})
                             break
